@@ -1401,6 +1401,17 @@ void CoreSMTSolver::learntSizeAdjust() {
   |    all variables are decision variables, this means that the clause set is satisfiable. 'l_False'
   |    if the clause set is unsatisfiable. 'l_Undef' if the bound on number of conflicts is reached.
   |________________________________________________________________________________________________@*/
+#ifdef OPENSMT_VERIF
+void CoreSMTSolver::verifTraceTrail(char const * kind) const {
+    if (not veriftrace::on()) { return; }
+    std::string lims;
+    for (int i = 0; i < trail_lim.size(); ++i) { lims += (i ? " " : ""); lims += std::to_string(trail_lim[i]); }
+    char buf[32];
+    std::snprintf(buf, sizeof buf, "%p", static_cast<void const *>(&theory_handler));
+    veriftrace::line(std::string("(tr ") + buf + " " + kind + " " + std::to_string(nVars()) + " " + std::to_string(trail.size()) + " (" + lims + "))");
+}
+#endif
+
 lbool CoreSMTSolver::search(int nof_conflicts)
 {
     // Time my executionto search_timer
@@ -1422,6 +1433,9 @@ lbool CoreSMTSolver::search(int nof_conflicts)
     vec<Lit>    learnt_clause;
 
     starts++;
+#ifdef OPENSMT_VERIF
+    verifTraceTrail("start");
+#endif
 
 #ifdef STATISTICS
     const double start = cpuTime( );
@@ -1510,12 +1524,18 @@ lbool CoreSMTSolver::search(int nof_conflicts)
             claDecayActivity();
 
             learntSizeAdjust();
+#ifdef OPENSMT_VERIF
+            verifTraceTrail("bj");
+#endif
         } else {
             // NO CONFLICT
             if ((nof_conflicts >= 0 && conflictC >= nof_conflicts) || !withinBudget()) {
                 // Reached bound on number of conflicts:
                 progress_estimate = progressEstimate();
                 cancelUntil(0);
+#ifdef OPENSMT_VERIF
+                verifTraceTrail("restart");
+#endif
                 return l_Undef;
             }
 
@@ -1614,6 +1634,9 @@ lbool CoreSMTSolver::search(int nof_conflicts)
             assert(value(next) == l_Undef);
             newDecisionLevel();
             uncheckedEnqueue(next);
+#ifdef OPENSMT_VERIF
+            verifTraceTrail("dec");
+#endif
         }
     }
     cancelUntil(0);
